@@ -3,6 +3,7 @@
 package gen
 
 import (
+	"math"
 	"math/big"
 	"strings"
 
@@ -463,3 +464,24 @@ func Pair(r *rng.R, c dec.Ctx, op string) (dec.D, dec.D) {
 
 // Repeat returns s repeated n times.
 func Repeat(s string, n int) string { return strings.Repeat(s, n) }
+
+// CoincidenceExps returns the exponents k in [lo, hi] at which 10^k lies
+// within the relative distance tol of a power of two (on either side). At
+// these k - 21306, 42612, 63918, 76573, ... for tol 1e-4; 497, 643, 849, ...
+// for looser ones - the decimal digit count and the bit length of a number
+// are related by a margin so thin that any shortcut which derives one from
+// the other with a rounded constant (a float64 or fixed-point log10(2) or
+// log2(5)) is wrong there first. The list is computed, not tabulated.
+func CoincidenceExps(lo, hi int64, tol float64) []int64 {
+	const log2of10 = 3.3219280948873623478703194294894
+	var out []int64
+	for k := lo; k <= hi; k++ {
+		f := float64(k) * log2of10
+		f -= math.Floor(f)
+		// 10^k = 2^(n+f): relative distance to 2^n is 2^f-1, to 2^(n+1) is 1-2^(f-1)
+		if f*math.Ln2 < tol || (1-f)*math.Ln2 < tol {
+			out = append(out, k)
+		}
+	}
+	return out
+}
